@@ -19,9 +19,9 @@ def scope(field, exp, got, info):
 
 SPEC = dict(
     sig="cmd", scope=scope,
-    sc=dict(family="cmds", n=(120, 700), mc=dict(max_calls=11, max_polls=2, after_end=1), mc_thorough=dict(max_calls=13),
+    sc=dict(family="cmds", n=(120, 2500), mc=dict(max_calls=11, max_polls=2, after_end=1), mc_thorough=dict(max_calls=13),
             invariants=INV, bugs=[("pendingPollReruns", ["PendingNextIsNoOp", "FlowRefinesSem"], [])]),
-    cs=[dict(family="cmds", n=(60, 300), paths=(4, 6), calls=40,
+    cs=[dict(family="cmds", n=(60, 1000), paths=(4, 6), calls=40,
              label="YarnTrace: random completion schedules (raw handlers, channel filled by the harness)")],
     nontrivial=lambda c: sum(1 for b in c["bodies"] for s in b if s["k"] == "cmd" and s["elems"][0].get("s") in ("cpend", "cfail")) >= 1,
     rule="scripts with up to several commands (top level, in option bodies, before/after lines and jumps; complete on return, failing on "
@@ -36,7 +36,7 @@ SPEC = dict(
 
 
 def race_part(ctx, thorough):
-    n = 120 if thorough else 30
+    n = 400 if thorough else 30
     cases_path = ctx.path("cases_race.ndjson")
     trace_path = ctx.path("trace_race.ndjson")
     p = ctx.harness(["core", "cmdrace", "--n", n, "--paths", 3 if thorough else 2, "--cases", cases_path, "--out", trace_path],
